@@ -1,6 +1,7 @@
 import Rtsp.Proofs.FixedWidth
 import Rtsp.Generated.Trans.Time
 import Rtsp.Model.TimeDec
+import Rtsp.Props.C15
 /-
 Bridge theorems, timestamps (C15): the integer code of pkg/rtptime/global_decoder.go
 (`multiplyAndDivide`, `globalDecoderTrackData.decode`), as translated from /repo's current source by
@@ -46,6 +47,26 @@ theorem multiplyAndDivide_eq (v m d : Int64)
   show (v / d * m + v % d * m / d).toInt = _
   rw [toInt_add_of_inRange] <;> rw [e3, e5]
   exact h5
+
+/-- the same without overflow hypotheses on intermediates: for the arguments `GlobalDecoder.Decode`
+passes — a non-negative `v` (PTS / elapsed nanoseconds), clock rates / divisors below 2^31 — the only
+requirement is that the RESULT fits an int64 (C15's `mulDiv_no_overflow` bounds every intermediate). -/
+theorem multiplyAndDivide_eq_of_rates (v m d : Int64) (hv : 0 ≤ v.toInt) (hm0 : 0 ≤ m.toInt)
+    (hm : m.toInt < 2147483648) (hd0 : 0 < d.toInt) (hd : d.toInt < 2147483648)
+    (hfit : TimeDec.mulDiv v.toInt m.toInt d.toInt < 2 ^ 63) :
+    (Trans.Time.multiplyAndDivide v m d).toInt = TimeDec.mulDiv v.toInt m.toInt d.toInt := by
+  obtain ⟨a1, a2, a3, a4, a5, a6⟩ := Rtsp.C15.mulDiv_no_overflow hv hm0 hm hd0 hd
+  have hvr := inRange_toInt v
+  have hq0 : 0 ≤ v.toInt.tdiv d.toInt := Int.tdiv_nonneg hv (by omega)
+  have hq1 : v.toInt.tdiv d.toInt ≤ v.toInt := Int.tdiv_le_self _ hv
+  have hsum : v.toInt.tdiv d.toInt * m.toInt + (v.toInt.tmod d.toInt * m.toInt).tdiv d.toInt
+      = TimeDec.mulDiv v.toInt m.toInt d.toInt := rfl
+  apply multiplyAndDivide_eq
+  · unfold InRange64 at *; omega
+  · unfold InRange64; omega
+  · unfold InRange64; omega
+  · unfold InRange64; omega
+  · rw [hsum]; unfold InRange64; omega
 
 /-- non-vacuity: 90 kHz, 12 s in nanoseconds — all five intermediates are in range -/
 example : (Trans.Time.multiplyAndDivide 12000000000 90000 1000000000).toInt = 1080000
